@@ -83,6 +83,58 @@ def well_formed(repo):
     return out
 
 
+def status_after_store(repo):
+    """Ordering condition on the AST of Logix.request: inside its try block the failure indication (0xFF + extended status) is in place before the
+    element range is computed, and in the block that stores into the attribute no success status is assigned before the store - so a store that
+    raises is answered with the failure indication already recorded, by the handler of that same try block."""
+    import ast
+    mod, cls, fdef = repo.find_function('server/enip/logix.py', 'Logix.request')
+    out = []
+    tries = [n for n in ast.walk(fdef) if isinstance(n, ast.Try)]
+    blocks = []
+    for n in ast.walk(fdef):
+        for fld in ('body', 'orelse', 'finalbody'):
+            blk = getattr(n, fld, None)
+            if isinstance(blk, list) and any(isinstance(x, ast.Assign) and ast.unparse(x.targets[0]).startswith('attribute[') for x in blk):
+                blocks.append(blk)
+    if len(blocks) != 1 or not tries:
+        raise Unsupported('stale contract: Logix.request has %d blocks that store into the attribute' % len(blocks))
+    blk = blocks[0]
+    is_status = lambda x: isinstance(x, ast.Assign) and ast.unparse(x.targets[0]) == 'data.status'
+    store_at = [k for k, x in enumerate(blk) if isinstance(x, ast.Assign) and ast.unparse(x.targets[0]).startswith('attribute[')][0]
+    early = [x for x in blk[:store_at] if is_status(x) or (isinstance(x, ast.Expr) and 'status' in ast.unparse(x))]
+    inside = [t for t in tries if any(b is blk for n in ast.walk(t) for b in [getattr(n, 'body', None), getattr(n, 'orelse', None)]) and t.handlers]
+    # the failure indication precedes the call that computes the range, at the top level of the try body
+    pre = 0
+    if inside:
+        body = inside[-1].body
+        fail_at = [k for k, x in enumerate(body) if is_status(x) and ast.unparse(x.value) in ('255', '0xFF', '0xff')]
+        calc_at = [k for k, x in enumerate(body) if 'self.reply_elements(' in ast.unparse(x)]
+        pre = 1 if fail_at and calc_at and fail_at[0] < calc_at[0] else 0
+    for name, got, want in (('no status is assigned in the storing block before the store', len(early), 0),
+                            ('the store happens inside a try block with a handler', min(len(inside), 1), 1),
+                            ('the failure status 0xFF is recorded before the element range is computed', pre, 1)):
+        v = z3.Int('n_%d' % (__import__('zlib').crc32(name.encode()) % 10 ** 8))
+        out.append((name, [v == got], v == want))
+    return out
+
+
+def replay_status_order(model, obligation):
+    """writes whose store cannot succeed (computed class-level attributes of the Logix object class): answered with a failure status, no exception escapes"""
+    import cpppo
+    from . import sim
+    num = lambda c, i, a: {'segment': [cpppo.dotdict({'class': c}), cpppo.dotdict({'instance': i}), cpppo.dotdict({'attribute': a})]}
+    for c, i, a in ((2, 0, 2), (2, 0, 1), (2, 0, 4)):
+        for svc, ctx, extra in ((0x4d, 'write_tag', {}), (0x53, 'write_frag', {'offset': 0})):
+            lx = sim.fresh({'A': ('INT', 3)})
+            kw = {ctx: dict({'elements': 1, 'type': 0xc3, 'data': [5]}, **extra)}
+            d = sim.request(lx, service=svc, path=num(c, i, a), **kw)
+            if d.get('status') in (0, -2):
+                return dict(confirmed=True, function='cpppo.server.enip.logix.Logix.request', input='%s to @%d/%d/%d' % (ctx, c, i, a),
+                            observed='status %r %s' % (d.get('status'), d.get('raised', '')), required='an error reply (non-zero status), no exception')
+    return dict(confirmed=False)
+
+
 def contracts(repo):
     items = [LC.reply_elements_spec(ensures=False, ctx=c) for c in ('read_tag', 'read_frag', 'write_tag', 'write_frag')]
     items += LC.request_specs()
@@ -93,6 +145,12 @@ def contracts(repo):
             items.append(sp)
     items.append(set_attribute_single_spec())
     items.append(get_attribute_single_spec())
+    items.append(Custom('status_after_store', status_after_store, replay=replay_status_order,
+                        note='ordering condition on the AST of Logix.request: failure status before the range computation, no success status before the store'))
+    # an accepted string stays readable: every length the wire can carry (SSTRING 0..255, STRING 0..65535) is a length the producer encodes (contracts of C01)
+    from . import C01 as _C01
+    items += _C01.string_specs()
+    items.append(_C01.status_spec())            # the failure indication itself: status, extended status size and words as the reply carries them
     return items
 
 
